@@ -582,6 +582,11 @@ def check_munu(ctx, have_spec):
         meta.append(('m2r', st))
     jobs.append({'op': 'stripe', 'stripes': list(range(-5, 120))})
     meta.append(('stripe', None))
+    # the stripe number as the numeric types a caller may hold it in (unsigned types wrap if the formula subtracts first)
+    for ty, rng_ in (('int64', range(-5, 120)), ('int16', range(-5, 120)), ('uint8', range(0, 120)), ('uint16', range(0, 120)),
+                     ('float', range(-5, 120)), ('float64', range(0, 120))):
+        jobs.append({'op': 'stripe', 'stripes': list(rng_), 'type': ty, 'frame': True})
+        meta.append(('stripe', None))
     nb = min(C.NPROC, len(jobs))
     outs = C.run_impl_parallel('c18_impl.py', [jobs[k::nb] for k in range(nb)])
     results = [None] * len(jobs)
@@ -607,10 +612,16 @@ def check_munu(ctx, have_spec):
                   'input': {'stripe': st, 'lon': job.get('lon', [])[:3], 'lat': job.get('lat', [])[:3]}, 'impl_result': r}, True)
             continue
         if kind == 'stripe':
+            ty = job.get('type', 'int')
             for s, eta, inc in zip(job['stripes'], r['eta'], r['incl']):
+                if not isnum(inc) or F(inc) != incl_doc(s) or not isnum(eta) or F(eta) != incl_doc(s) - F(65, 2):
+                    viol('C18:stripe:incl' if ty == 'int' else 'C18:stripe:incl:type=%s' % ty,
+                         'stripe_to_incl(%s(%d)) = %r (eta %r), documented %s' % (ty, s, inc, eta, incl_doc(s)),
+                         {'kind': 'failing-input', 'input': {'stripe': s, 'type': ty}, 'impl': inc, 'eta': eta}, True)
+            for s, inc in zip(job['stripes'], r.get('frame_incl', [])):
                 if not isnum(inc) or F(inc) != incl_doc(s):
-                    viol('C18:stripe:incl', 'stripe_to_incl(%d) = %r, documented %s' % (s, inc, incl_doc(s)),
-                         {'kind': 'failing-input', 'input': {'stripe': s}, 'impl': inc, 'eta': eta}, True)
+                    viol('C18:stripe:frame-incl:type=%s' % ty, 'SDSSMuNu(stripe=%s(%d)).incl = %r, documented %s' % (ty, s, inc, incl_doc(s)),
+                         {'kind': 'failing-input', 'input': {'stripe': s, 'type': ty}, 'impl': inc}, True)
             continue
         if not isnum(r.get('incl')) or F(r['incl']) != incl_doc(st) or r.get('node') != NODE or r.get('stripe_out', st) != st:
             viol('C18:munu:frame-attributes', 'frame attributes: stripe %r incl %r node %r (expected %d, %s, 95)'
@@ -738,6 +749,21 @@ def check_angles(ctx, have_spec):
             nrm = math.sqrt(sum(t * t for t in v))
             xs.append([t / nrm for t in v])
         jobs.append({'op': 'x2a', 'latitude': lat, 'x': xs})
+    # the latitude flag as truthy / falsy objects that are not the literals True / False; same object to both functions
+    for flag, lat in (('np.True_', True), ('np.False_', False), ('1', True), ('0', False), ('cmp-true', True), ('cmp-false', False),
+                      ('np.bool-array-element', True)):
+        pts = []
+        for _ in range(ctx.n(12, 60)):
+            phi = rng.choice([C.dyadic(rng, -720, 720, 6), 0.0, 180.0, 90.0])
+            th = rng.choice([C.dyadic(rng, 0.5, 179.5, 6), 45.0, 1e-2, 120.0])
+            pts.append([phi, 90.0 - th if lat else th])
+        jobs.append({'op': 'angles', 'latitude': lat, 'flag': flag, 'pts': pts})
+        xs = []
+        for _ in range(ctx.n(12, 60)):
+            v = [rng.gauss(0, 1) for _ in range(3)]
+            nrm = math.sqrt(sum(t * t for t in v))
+            xs.append([t / nrm for t in v])
+        jobs.append({'op': 'x2a', 'latitude': lat, 'flag': flag, 'x': xs})
     out = C.run_impl('c18_impl.py', jobs)['results']
     seen = set()
 
@@ -749,6 +775,8 @@ def check_angles(ctx, have_spec):
     encl = []
     for job, r in zip(jobs, out):
         lat = job['latitude']
+        flag = job.get('flag')
+        tag = ('flag=%s' % flag) if flag else ('lat=%s' % lat)
         if 'err' in r:
             viol('C18:angles:impl-error:%s' % r['err'], '%s raised %s' % (job['op'], r['err']),
                  {'kind': 'failing-input', 'input': {'latitude': lat, 'first': (job.get('pts') or job.get('x'))[:2]}, 'impl_result': r}, True)
@@ -763,15 +791,15 @@ def check_angles(ctx, have_spec):
                       'second_call_same': r.get('second_call_same')}, True)
             for p, x, b in zip(job['pts'], r['x'], r['back']):
                 n += 1
-                rep = {'kind': 'failing-input', 'input': {'latitude': lat, 'phi_theta': p}, 'x': x, 'back': b}
+                rep = {'kind': 'failing-input', 'input': {'latitude': lat, 'flag': flag, 'phi_theta': p}, 'x': x, 'back': b}
                 if not all(isnum(t) for t in list(x) + list(b)):
-                    viol('C18:angles:nan:lat=%s' % lat, 'angles_to_x/x_to_angles produce a non-finite value for %r: x=%r back=%r' % (p, x, b), rep, True)
+                    viol('C18:angles:nan:%s' % tag, 'angles_to_x/x_to_angles produce a non-finite value for %r: x=%r back=%r' % (p, x, b), rep, True)
                     continue
                 if abs(sum(t * t for t in x) - 1.0) > 1e-12:
                     viol('C18:angles:unit', 'angles_to_x(%r) is not a unit vector: %r' % (p, x), rep, True)
                 dphi = (b[0] - p[0] + 180.0) % 360.0 - 180.0
                 if abs(dphi) > 1e-8 or abs(b[1] - p[1]) > 1e-6 * abs(p[1]) + 1e-8:
-                    viol('C18:angles:roundtrip:lat=%s' % lat, 'x_to_angles(angles_to_x(%r)) = %r (latitude=%s)' % (p, b, lat), rep, True)
+                    viol('C18:angles:roundtrip:%s' % tag, 'x_to_angles(angles_to_x(%r)) = %r (latitude=%s)' % (p, b, flag or lat), rep, True)
                 if sum(1 for e in encl if e[0] == lat) < ctx.n(8, 60) and rng.random() < 0.2:
                     encl.append((lat, p[0], p[1], x))
         else:
@@ -785,8 +813,8 @@ def check_angles(ctx, have_spec):
             for x, a, b in zip(job['x'], r['a'], r['back']):
                 n += 1
                 if not all(isnum(t) for t in list(a) + list(b)) or max(abs(s - t) for s, t in zip(x, b)) > 1e-9:
-                    viol('C18:angles:x-roundtrip:lat=%s' % lat, 'angles_to_x(x_to_angles(%r)) = %r via %r' % (x, b, a),
-                         {'kind': 'failing-input', 'input': {'latitude': lat, 'x': x}, 'angles': a, 'back': b}, True)
+                    viol('C18:angles:x-roundtrip:%s' % tag, 'angles_to_x(x_to_angles(%r)) = %r via %r (latitude=%s)' % (x, b, a, flag or lat),
+                         {'kind': 'failing-input', 'input': {'latitude': lat, 'flag': flag, 'x': x}, 'angles': a, 'back': b}, True)
     lemmas = [angles_lemma('a%d' % k, *e) for k, e in enumerate(encl)]
     secs, nfail = 0.0, 0
     if have_spec:
@@ -865,11 +893,16 @@ def replay(ctx, rep):
         print('  ->', out['results'][0])
         print('before:', rep.get('forward'), rep.get('back'))
         return 0
+    if ':stripe:' in sig and isinstance(inp, dict) and 'stripe' in inp:
+        out = C.run_impl('c18_impl.py', [{'op': 'stripe', 'stripes': [inp['stripe']], 'type': inp.get('type', 'int'), 'frame': True}])
+        print('stripe', inp, '->', out['results'][0])
+        return 0
     if ':angles:' in sig and isinstance(inp, dict):
+        extra = {'flag': inp['flag']} if inp.get('flag') else {}
         if 'phi_theta' in inp:
-            out = C.run_impl('c18_impl.py', [{'op': 'angles', 'latitude': inp['latitude'], 'pts': [inp['phi_theta']]}])
+            out = C.run_impl('c18_impl.py', [dict({'op': 'angles', 'latitude': inp['latitude'], 'pts': [inp['phi_theta']]}, **extra)])
         else:
-            out = C.run_impl('c18_impl.py', [{'op': 'x2a', 'latitude': inp['latitude'], 'x': [inp['x']]}])
+            out = C.run_impl('c18_impl.py', [dict({'op': 'x2a', 'latitude': inp['latitude'], 'x': [inp['x']]}, **extra)])
         print('input', inp, '->', out['results'][0])
         return 0
     print('input:', inp)
